@@ -20,7 +20,7 @@ type c18 struct{}
 func (c18) ID() string    { return "C18" }
 func (c18) Level() string { return "exploration" }
 func (c18) Rule() string {
-	return "env files assembled from the documented line grammar: 1-line files over key shape x separator x quoting x all value texts of <=3 (4 for one key/sep) tokens from a 15-token alphabet; 2- and 3-line files over a line-form alphabet; 4..6-line files over 6 forms; each with and without trailing newline and with 4 lookup functions (none, one name, two names, a name defined as the empty string); plus every string over a 13-symbol alphabet (12 bytes and the keyword export) up to 6 symbols (7 thorough) and every distance-1 byte edit of the repository's dotenv fixtures. Reference evaluator decides defined / must-error / outside; non-trivial = the reference defines the result; distinct = distinct (verdict, resulting map) signatures"
+	return "env files assembled from the documented line grammar: 1-line files over key shape x separator x quoting x all value texts of <=3 (4 for one key/sep) tokens from a 15-token alphabet; 2- and 3-line files over a line-form alphabet; 4..6-line files over 6 forms; each with and without trailing newline and with 4 lookup functions; every 2-line file also through each of the six other public parsing functions (UnmarshalWithLookup, UnmarshalBytesWithLookup, ReadFile, ReadWithLookup, GetEnvFromFile, Parse) (none, one name, two names, a name defined as the empty string); plus every string over a 13-symbol alphabet (12 bytes and the keyword export) up to 6 symbols (7 thorough) and every distance-1 byte edit of the repository's dotenv fixtures. Reference evaluator decides defined / must-error / outside; non-trivial = the reference defines the result; distinct = distinct (verdict, resulting map) signatures"
 }
 func (c18) Assumptions() []string {
 	return []string{
@@ -54,7 +54,14 @@ func mapSig(m map[string]string) string {
 	return sb.String()
 }
 
-func c18check(src string, lk c18lookup) core.Outcome {
+// c18entries: the public functions that parse an env file; every one of them is held to the same reference.
+var c18entries = []string{"ParseWithLookup", "UnmarshalWithLookup", "UnmarshalBytesWithLookup", "ReadFile", "ReadWithLookup", "GetEnvFromFile", "Parse"}
+
+var c18fileSeq int
+
+func c18check(src string, lk c18lookup) core.Outcome { return c18checkVia(src, lk, 0) }
+
+func c18checkVia(src string, lk c18lookup, entry int) core.Outcome {
 	var fn dotenv.LookupFn
 	var rf dotenvref.Lookup
 	if lk.m != nil {
@@ -64,7 +71,37 @@ func c18check(src string, lk c18lookup) core.Outcome {
 	var got map[string]string
 	var gerr error
 	perr := core.Try(func() error {
-		got, gerr = dotenv.ParseWithLookup(strings.NewReader(src), fn)
+		switch entry {
+		case 0:
+			got, gerr = dotenv.ParseWithLookup(strings.NewReader(src), fn)
+		case 1:
+			got, gerr = dotenv.UnmarshalWithLookup(src, fn)
+		case 2:
+			got, gerr = dotenv.UnmarshalBytesWithLookup([]byte(src), fn)
+		case 6:
+			got, gerr = dotenv.Parse(strings.NewReader(src))
+		default:
+			c18fileSeq++
+			f := filepath.Join(Scratch(), fmt.Sprintf("c18-%d.env", c18fileSeq&15))
+			if err := os.WriteFile(f, []byte(src), 0o644); err != nil {
+				panic(err)
+			}
+			switch entry {
+			case 3:
+				got, gerr = dotenv.ReadFile(f, fn)
+			case 4:
+				got, gerr = dotenv.ReadWithLookup(fn, f)
+			case 5:
+				cur := lk.m
+				if cur == nil {
+					cur = map[string]string{}
+				}
+				got, gerr = dotenv.GetEnvFromFile(cur, []string{f})
+			}
+		}
+		if gerr != nil {
+			got = nil // some entry points hand back the partial map next to the error
+		}
 		return nil
 	})
 	sample := map[string]any{"file": src, "lookup": lk.m}
@@ -205,6 +242,16 @@ func (c18) Run(c *core.Ctx) {
 			src := forms[a] + "\n" + forms[b]
 			run(fmt.Sprintf("l2/%d/%d/n", a, b), src+"\n")
 			run(fmt.Sprintf("l2/%d/%d/e", a, b), src)
+			// the same file through every other public parsing function
+			for e := 1; e < len(c18entries); e++ {
+				for li, lk := range c18lookups {
+					if e == 6 && lk.m != nil {
+						continue // Parse has no lookup
+					}
+					e, lk := e, lk
+					c.Do(fmt.Sprintf("l2/%d/%d/n/%d/via-%s", a, b, li, c18entries[e]), func() core.Outcome { return c18checkVia(src+"\n", lk, e) })
+				}
+			}
 		}
 	}
 	f3 := forms[:24]
